@@ -24,6 +24,10 @@ CHECKS = {
    text="same simulation and delivery model as C09 against the real tcpassembly.Assembler (Reassembly.Skip/Bytes/Start/End), including sequence wrap, page limits and age-based flushes.",
    note="as C09",
    tech="deterministic discrete-event simulation with network fault injection; reference-model oracle; tape shrinking"),
+ "C11": dict(cat="exploration", engine="des-tcp", ref="4 C11",
+   text="seeded deterministic simulation of many connections (FIN, RST, stalled, re-opened 4-tuples) with network faults, backward clock jumps, closing and non-closing age-based flushes, page limits and a final flush-all against both real assemblers; after every event the lifecycle (completion exactly once, no data after it), leak (pool and page cache empty after flush-all), page-limit and age-flush invariants are audited.",
+   note="trusted: harness model; pages in use and pool size are read through verif-tagged accessors; the page-limit bound is audited only in runs whose streams keep no bytes",
+   tech="deterministic discrete-event simulation with fault injection; invariant audit after every event"),
 }
 
 def main():
